@@ -62,7 +62,10 @@ def print_axioms(module, names):
         os.remove(tmp)
     res = {}
     for m in re.finditer(r"'([\w.]+)' (?:depends on axioms: \[([^\]]*)\]|does not depend on any axioms)", out.replace('\n', ' ')):
-        res[m.group(1).split('.')[-1]] = [a.strip() for a in (m.group(2) or '').split(',') if a.strip()]
+        full = m.group(1)
+        ax = [a.strip() for a in (m.group(2) or '').split(',') if a.strip()]
+        for n in names:
+            if full == n or full.endswith('.' + n): res[n] = ax
     return res
 
 # --------------------------------------------------------------------------- transcript comparison
@@ -364,26 +367,40 @@ def main():
                 s, ls = case_of[i]
                 if s in seen_cases or len(violations) >= 5: continue
                 seen_cases.add(s)
-                small = shrink(runner, ls, i - s, kind)
                 found = kind != 'hidden'
+                prefix = ls[:i - s + 1]
+                small = None
                 if kind == 'hidden':
-                    # search for a public manifestation: probe every object after the failing history
-                    # (stale bookkeeping shows itself in a LATER operation: probes, a further params edit, a sort)
+                    # hidden state only (offsets / flags / segment count / params list / sorted flag): search for a
+                    # public manifestation. Stale bookkeeping shows itself in a LATER operation, so follow-up
+                    # operations are appended to the UNSHRUNK history first (it has the most state), then shrunk.
                     followups = [['probe 0'], ['probe 1'], ['dump 0'], ['dump 1'], ['sp 0 sort', 'dump 0'], ['sp 1 sort', 'dump 1'],
                                  ['sp 0 append 8 7a 8 31', 'dump 0'], ['sp 1 append 8 7a 8 31', 'dump 1'], ['psp 0 sort'], ['psp 1 sort'],
+                                 ['psp 0 append 8 7a 8 31', 'psp 0 append 8 61 8 32', 'psp 0 sort'], ['psp 1 append 8 7a 8 31', 'psp 1 append 8 61 8 32', 'psp 1 sort'],
+                                 ['psp 0 append 8 ee,80,80 8 31', 'psp 0 append 8 f0,90,80,80 8 32', 'psp 0 sort'],
+                                 ['sp 0 append 8 7a 8 31', 'sp 0 append 8 61 8 32', 'sp 0 sort', 'dump 0'], ['sp 1 append 8 7a 8 31', 'sp 1 append 8 61 8 32', 'sp 1 sort', 'dump 1'],
                                  ['set 0 pathname 8 2f,2e,2e,2f,78', 'dump 0'], ['set 1 pathname 8 2f,2e,2e,2f,78', 'dump 1'],
-                                 ['parse 2 8 2e,2e,2f,79 s0', 'dump 2'], ['parse 2 8 2e,2e,2f,79 s1', 'dump 2']]
+                                 ['parse 2 8 2e,2e,2f,79 s0', 'dump 2'], ['parse 2 8 2e,2e,2f,79 s1', 'dump 2'],
+                                 ['parse 2 8 - s0', 'dump 2'], ['parse 2 8 3f,71 s0', 'dump 2'], ['parse 2 8 23,66 s1', 'dump 2']]
                     for fu in followups:
-                        aug = small + fu
+                        aug = prefix + fu
                         try:
                             c2, _, _, l2 = runner.run(aug)
                         except Exception:
                             continue
-                        for j in range(len(small), min(len(c2), len(aug))):
-                            r2 = [k for (k, _) in compare_line(aug[j], c2[j], l2[j]) if k != 'hidden']
-                            if r2: small = aug[:j + 1]; found = True; detail += '\npublic manifestation (%s): %s' % (r2[0], c2[j][:300]); break
-                        if found: break
-                    if not found: detail += '\ncorrespondence (hidden state: offsets / flags / segment count / params list) no longer checks for operation: ' + readable(small[-1])
+                        hit = None
+                        for jj in range(len(prefix), min(len(c2), len(aug))):
+                            r2 = [k for (k, _) in compare_line(aug[jj], c2[jj], l2[jj]) if k != 'hidden']
+                            if r2: hit = (jj, r2[0], c2[jj]); break
+                        if hit:
+                            small = shrink(runner, aug[:hit[0] + 1], hit[0], hit[1])
+                            found = True
+                            detail += '\nhidden state diverged at: %s\npublic manifestation (%s): %s' % (readable(ls[i - s]), hit[1], hit[2][:300])
+                            break
+                if small is None:
+                    small = shrink(runner, ls, i - s, kind)
+                    if kind == 'hidden':
+                        detail += '\ncorrespondence (hidden state: offsets / flags / segment count / params list) no longer checks for operation: ' + readable(small[-1])
                 violations.append((kind, small, '%s\n%s' % (kind, detail[:3000]), found))
         if crash_at is not None and crash_at < len(lines):
             s, ls = case_of[crash_at]
